@@ -582,7 +582,7 @@ pub fn run(args: Args) {
     run.assume("the identity server is an HTTP stub: password verification = string equality with the server-side password; account validity windows and server-side lockout are not modelled");
     run.assume("Resolver::pam_account_authenticate (the daemon's init+step sequence in one call) is the driver; the unix socket front end of the daemon is not exercised");
     run.assume("cache expiry uses the wall clock inside the resolver (60 s minimum); histories finish well inside it, and Resolver::invalidate is used to force the expired-cache path");
-    let histories: u64 = args.tier.pick(256, 4_000);
+    let histories: u64 = args.tier.pick(208, 4_000);
     // replay: the witness is self-contained (inputs, conversation, result, explanation); show it, then
     // re-derive the verdict by running the same seed/tier it was found under
     if let Some(p) = &args.replay {
@@ -653,7 +653,7 @@ pub fn run(args: Args) {
     for m in missing {
         run.require(false, &m);
     }
-    let min_nt = args.tier.pick(100, 1_500);
+    let min_nt = args.tier.pick(80, 1_500);
     let nt = run.acc.nontrivial_total();
     run.require(nt >= min_nt, &format!("only {nt} distinct histories with an offline decision (< {min_nt})"));
     run.finish();
